@@ -474,6 +474,100 @@ def check_wrappers(ctx, case, prev):
     return ok
 
 
+def place_tree(rel, a, b):
+    return [a + (b - a) * x for x in rel]
+
+
+def run_nd_calls(ctx, config, do_cache, calls, case):
+    """ONE GlobalRombergGrid object per distinct box, reused over all `calls` on that box is not enough to see a stale
+    cache across intervals, so ONE object is used for ALL calls: `calls` = list of per-dimension lists of
+    (grid fractions, levels); the box of the object is that of the first call (the cache does not depend on it).
+    Per dimension: weights must equal those of a fresh ExtrapolationGrid on that dimension's own grid, sum to the
+    interval length and have the right first moment."""
+    ex = E()
+    from sparseSpACE.Grid import GlobalRombergGrid
+    gname, sname, cname = config
+    ok = True
+    dim = len(calls[0])
+    a0 = [float(Fr(g[0])) for g, _ in calls[0]]
+    b0 = [float(Fr(g[-1])) for g, _ in calls[0]]
+    tags = {"grouping": gname, "slice": sname, "container": cname, "do_cache": do_cache, "dim": dim, "nd": True}
+    try:
+        w = GlobalRombergGrid(a0, b0, do_cache=do_cache, slice_grouping=ex.SliceGrouping[gname],
+                              slice_version=ex.SliceVersion[sname], container_version=ex.SliceContainerVersion[cname])
+        for ci, call in enumerate(calls):
+            grids = [[Fr(x) for x in g] for g, _ in call]
+            lvs = [[int(l) for l in lv] for _, lv in call]
+            w.a = [float(g[0]) for g in grids]
+            w.b = [float(g[-1]) for g in grids]
+            w.initialize_grid()
+            w.set_grid([[float(x) for x in g] for g in grids], [list(l) for l in lvs])
+            for d in range(dim):
+                got = [float(x) for x in w.weights[d]]
+                st, e = impl_grid(gname, sname, cname, False, grids[d], lvs[d])
+                want = impl_weights(e)[1] if st == "ok" else None
+                bad = []
+                if want is None or got != want:
+                    bad.append("differs from a fresh ExtrapolationGrid on this interval")
+                if not (cname == "SIMPSON_ROMBERG" and gname != "UNIT"):
+                    a, b = grids[d][0], grids[d][-1]
+                    s0 = sum(Fr(x) for x in got)
+                    s1 = sum(Fr(x) * p for x, p in zip(got, grids[d]))
+                    if len(got) != len(grids[d]) or abs(float(s0 - (b - a))) > TOL_ORACLE * max(1.0, float(b - a)):
+                        bad.append("sum %r != length %r" % (float(s0), float(b - a)))
+                    elif abs(float(s1 - (b * b - a * a) / 2)) > TOL_ORACLE * max(1.0, abs(float((b * b - a * a) / 2)), float(b - a)):
+                        bad.append("first moment %r != %r" % (float(s1), float((b * b - a * a) / 2)))
+                if bad:
+                    ok = False
+                    ctx.violation("wrapper-weights", dict(tags, call=ci, d=d), case,
+                                  {"failed": bad, "wrapper": str(got)[:300], "direct": str(want)[:300]})
+                    return ok
+    except Exception as exn:
+        ok = False
+        ctx.violation("wrapper-exception", dict(tags, exc=type(exn).__name__), case, {"msg": str(exn)[:200]})
+    ctx.count("wrapper_nd_checked")
+    return ok
+
+
+def check_wrappers_nd(ctx, case, prev):
+    """dim 2-3, NON-cubic boxes, the same tree (same level sequence) deliberately in several dimensions, one wrapper
+    object reused over several set_grid calls: same levels on other intervals, other levels on the same intervals"""
+    r = ctx.rng
+    grid = [Fr(x) for x in case["grid"]]
+    lv = [int(l) for l in case["levels"]]
+    if len(grid) < 2 or grid[-1] <= grid[0]:
+        return True
+    rel = [(x - grid[0]) / (grid[-1] - grid[0]) for x in grid]
+    other = None
+    if prev is not None:
+        pg = [Fr(x) for x in prev["grid"]]
+        other = ([(x - pg[0]) / (pg[-1] - pg[0]) for x in pg], [int(l) for l in prev["levels"]])
+    dim = r.choice([2, 2, 3])
+    # intervals of pairwise different length
+    doms = []
+    while len(doms) < 2 * dim:
+        a, b = r.choice(DOMAINS)
+        if all(b - a != y - x for x, y in doms):
+            doms.append((a, b))
+        elif r.random() < 0.3:
+            k = r.choice([2, 4, Fr(1, 2)])
+            if all((b - a) * k != y - x for x, y in doms):
+                doms.append((a, a + (b - a) * k))
+    box1, box2 = doms[:dim], doms[dim:]
+    trees1 = [(rel, lv)] * dim
+    if other is not None and dim == 3:
+        trees1 = [(rel, lv), other, (rel, lv)]
+    mk = lambda box, trees: [([frac_str(x) for x in place_tree(t[0], a, b)], list(t[1])) for (a, b), t in zip(box, trees)]
+    calls = [mk(box1, trees1), mk(box2, trees1)]
+    if other is not None:
+        calls.append(mk(box2, [other] * dim))         # other levels, same intervals
+    calls.append(mk(box1, trees1))                    # back to the first box
+    config = [r.choice(GROUPINGS)[0], r.choice(SLICES)[0], r.choice(CONTAINERS)[0]]
+    do_cache = r.random() < 0.9
+    sub = {"kind": "wrapper-nd", "config": config, "do_cache": do_cache, "calls": calls}
+    return run_nd_calls(ctx, config, do_cache, calls, sub)
+
+
 def check_factories(ctx, drv, r, n):
     ex = E()
     ok = True
@@ -531,6 +625,7 @@ def run_case(ctx, drv, case, prev=None):
         ok = check_balanced(ctx, drv, case, False) and ok
     if valid:
         ok = check_wrappers(ctx, case, prev) and ok
+        ok = check_wrappers_nd(ctx, case, prev) and ok
     return ok
 
 
@@ -596,6 +691,12 @@ def run(ctx):
 def replay(ctx, rp):
     case = rp["case"]
     drv = ctx.driver("drv_c11")
+    if case.get("kind") == "wrapper-nd":
+        ok = run_nd_calls(ctx, case["config"], case["do_cache"], case["calls"], case)
+        print("replay: %s" % ("property holds on this case" if ok else "REPRODUCED"))
+        for v in ctx.violations[:4]:
+            print("  violation:", v["probe"], v["tags"], v["detail"])
+        return 0 if ok else 1
     if case.get("kind") == "factory":
         print("replay: factory cases are regenerated from the seed, not replayed individually")
         return 0
